@@ -25,6 +25,8 @@
     evaluated with the old `γ`); `γ`-monotonicity and `γ·L = Lγ_factor` hold in either case.
 -/
 import Alpaqa.Proofs.PanocDescent
+import Alpaqa.Proofs.PanocSized
+import Alpaqa.Proofs.PanocFuel
 import Alpaqa.Props.C15
 import Alpaqa.Props.C06_Panoc
 import Mathlib.Data.List.Chain
@@ -75,6 +77,13 @@ structure ProxOpt (hval : Vec α → α) (dom : Vec α → Prop) (γ : α) (x g 
   opt : ∀ u, dom u → u.length = x.length →
     hval r.2.1 + sqNorm (vsub r.2.1 x) / (2 * γ) + dot (vsub r.2.1 x) g ≤
       hval u + sqNorm (vsub u x) / (2 * γ) + dot (vsub u x) g
+
+/-- The prox contract of a problem of dimension `n`: `ProxOpt` for every `γ > 0` and all
+    *well-sized* `x`, `∇ψ` (on ill-sized lists the list model of a prox step truncates and `ProxOpt`
+    is false; the loop only ever calls the oracle on well-sized vectors, `Proofs/PanocSized`).
+    Discharged for the shipped box / box+ℓ1 step by `proxSpec_box` below. -/
+def ProxSpec (n : Nat) (hval : Vec α → α) (dom : Vec α → Prop) (P : Problem α) : Prop :=
+  ∀ γ x g, 0 < γ → x.length = n → g.length = n → ProxOpt hval dom γ x g (P.prox γ x g)
 
 /-- **`φ_γ(x) ≤ ψ(x) + h(x)`** for `x ∈ dom h` and every `γ` (take `u = x` in the prox contract). -/
 theorem fbe_le_cost (hval : Vec α → α) (dom : Vec α → Prop) (γ ψx : α) (x g : Vec α)
@@ -162,6 +171,125 @@ theorem proxOpt_of_components (hc : α → α) (γ : α) (cs : List (α × α ×
     have h2 := ih (fun c' hc' => h c' (List.mem_cons_of_mem _ hc'))
     simp only [List.map_cons, List.sum_cons, add_div]
     linarith
+
+/-! ### `Props/C15` discharges the prox contract for the vector step (`C15.proxGradStep`)
+
+`BoxConstrProblem::eval_prox_grad_step` (box `C`, optional ℓ1 term), modelled by
+`C15.proxGradStep l1 γ x g lb ub`, satisfies `ProxSpec n` with `h(u) = Σ λᵢ|uᵢ|` and
+`dom h = {u : |u| = n, lb ≤ u ≤ ub}` — from the vector-level theorems of `Props/C15`
+(`proxGradStep_vector_is_prox`, `proxGradStep_returns_h`, `proxGradStep_p_eq`,
+`proxGradStep_xhat`). -/
+
+theorem zipWith_eq_range (f : α → α → α) (a b : Vec α) (n : Nat) (ha : a.length = n)
+    (hb : b.length = n) :
+    List.zipWith f a b = (List.range n).map fun i => f (vget a i) (vget b i) := by
+  have ea := Alpaqa.C15.eq_map_range_vget a
+  have eb := Alpaqa.C15.eq_map_range_vget b
+  rw [ha] at ea; rw [hb] at eb
+  conv_lhs => rw [ea, eb]
+  exact Alpaqa.C15.zipWith_map_range n _ _ f
+
+theorem sqNorm_vsub_range (n : Nat) (a x : Vec α) (ha : a.length = n) (hx : x.length = n) :
+    sqNorm (vsub a x) = ((List.range n).map fun i => (vget a i - vget x i) ^ 2).sum := by
+  unfold sqNorm vsub vzip
+  rw [vsum_eq_sum', zipWith_eq_range _ a x n ha hx, List.map_map]
+  congr 1
+  apply List.map_congr_left
+  intro i _
+  simp only [Function.comp]; ring
+
+theorem dot_vsub_range (n : Nat) (a x g : Vec α) (ha : a.length = n) (hx : x.length = n)
+    (hg : g.length = n) :
+    dot (vsub a x) g = ((List.range n).map fun i => (vget a i - vget x i) * vget g i).sum := by
+  unfold dot vmul vsub vzip
+  rw [vsum_eq_sum', zipWith_eq_range _ a x n ha hx,
+    zipWith_eq_range _ _ g n (by simp) hg]
+  congr 1
+  apply List.map_congr_left
+  intro i hi
+  rw [Alpaqa.C15.vget_map_range _ _ _ (List.mem_range.mp hi)]
+
+theorem sum_prox_split (n : Nat) (γ : α) (hγ : 0 < γ) (lam a x g : Nat → α) :
+    ((List.range n).map fun i => lam i * |a i| + (a i - (x i - γ * g i)) ^ 2 / (2 * γ)).sum
+      = ((List.range n).map fun i => lam i * |a i|).sum
+        + ((List.range n).map fun i => (a i - x i) ^ 2).sum / (2 * γ)
+        + ((List.range n).map fun i => (a i - x i) * g i).sum
+        + ((List.range n).map fun i => γ * g i ^ 2 / 2).sum := by
+  induction n with
+  | zero => simp
+  | succ k ih =>
+    simp only [List.range_succ, List.map_append, List.sum_append, List.map_cons, List.map_nil,
+      List.sum_cons, List.sum_nil, add_zero]
+    rw [ih]
+    have h2 : (2 * γ) ≠ 0 := by positivity
+    field_simp
+    ring
+
+/-- the ℓ1 term of the box-constrained problem class: `h(u) = Σ_{i<n} λᵢ|uᵢ|` (0 without ℓ1 term) -/
+def hvalL1 (l1 : Vec α) (n : Nat) (u : Vec α) : α :=
+  ((List.range n).map fun i => Alpaqa.Props.C15.lamAt l1 i * |vget u i|).sum
+
+/-- `dom h`: vectors of size `n` inside the box -/
+def domBox (n : Nat) (lb ub : Vec α) (u : Vec α) : Prop :=
+  u.length = n ∧ ∀ i < n, vget lb i ≤ vget u i ∧ vget u i ≤ vget ub i
+
+/-- The data of a box / box+ℓ1 problem of dimension `n`: non-empty box, non-negative ℓ1 weights,
+    `l1_reg` of size 0, 1 or `n` (as the C++ asserts). -/
+structure BoxData (n : Nat) (l1 lb ub : Vec α) : Prop where
+  box : ∀ i < n, vget lb i ≤ vget ub i
+  lam : ∀ i < n, 0 ≤ Alpaqa.Props.C15.lamAt l1 i
+  len : l1.length ≤ 1 ∨ l1.length = n
+
+theorem proxGradStep_p_length (l1 : Vec α) (γ : α) (x g lb ub : Vec α) :
+    (Alpaqa.C15.proxGradStep l1 γ x g lb ub).2.2.length = x.length := by
+  unfold Alpaqa.C15.proxGradStep
+  split_ifs <;> simp
+
+/-- **The shipped box / box+ℓ1 prox step meets the prox contract** on well-sized vectors. -/
+theorem proxOpt_box (n : Nat) (l1 lb ub : Vec α) (hB : BoxData n l1 lb ub) (γ : α) (x g : Vec α)
+    (hγ : 0 < γ) (hx : x.length = n) (hg : g.length = n) :
+    ProxOpt (hvalL1 l1 n) (domBox n lb ub) γ x g (Alpaqa.C15.proxGradStep l1 γ x g lb ub) := by
+  have hxl : (Alpaqa.C15.proxGradStep l1 γ x g lb ub).2.1.length = n := by
+    rw [Alpaqa.Props.C15.proxGradStep_xhat_length, hx]
+  have hpl : (Alpaqa.C15.proxGradStep l1 γ x g lb ub).2.2.length = n := by
+    rw [proxGradStep_p_length, hx]
+  refine ⟨?_, ?_, ⟨hxl, ?_⟩, ?_⟩
+  · -- p = x̂ − x
+    have ep := Alpaqa.C15.eq_map_range_vget (Alpaqa.C15.proxGradStep l1 γ x g lb ub).2.2
+    rw [hpl] at ep
+    rw [ep]
+    unfold vsub vzip
+    rw [zipWith_eq_range _ _ x n hxl hx]
+    apply List.map_congr_left
+    intro i hi
+    exact Alpaqa.Props.C15.proxGradStep_p_eq l1 γ x g lb ub i (by rw [hx]; exact List.mem_range.mp hi)
+  · -- the returned value is h(x̂)
+    have := Alpaqa.Props.C15.proxGradStep_returns_h l1 γ x g lb ub (by rw [hx]; exact hB.lam)
+      (by rw [hx]; exact hB.len)
+    rw [hx] at this
+    exact this
+  · -- x̂ is in the box
+    intro i hi
+    rw [Alpaqa.Props.C15.proxGradStep_xhat _ _ _ _ _ _ _ (by rw [hx]; exact hi)]
+    exact Alpaqa.Props.C15.boxL1_in_box _ _ _ _ (hB.box i hi)
+  · -- x̂ minimises the model over the box
+    intro u hu hul
+    have hun : u.length = n := hu.1
+    have hv := Alpaqa.Props.C15.proxGradStep_vector_is_prox l1 γ x g lb ub hγ (by rw [hx]; exact hB.box)
+      (by rw [hx]; exact hB.lam) u (by rw [hx]; exact hu.2)
+    rw [hx, sum_prox_split n γ hγ, sum_prox_split n γ hγ] at hv
+    rw [sqNorm_vsub_range n _ x hxl hx, sqNorm_vsub_range n u x hun hx,
+      dot_vsub_range n _ x g hxl hx hg, dot_vsub_range n u x g hun hx hg]
+    unfold hvalL1
+    linarith
+
+/-- **`ProxSpec` holds for every problem whose prox oracle is the shipped box / box+ℓ1 step.** -/
+theorem proxSpec_box (n : Nat) (l1 lb ub : Vec α) (hB : BoxData n l1 lb ub) (P : Problem α)
+    (hprox : ∀ γ x g, P.prox γ x g = Alpaqa.C15.proxGradStep l1 γ x g lb ub) :
+    ProxSpec n (hvalL1 l1 n) (domBox n lb ub) P := by
+  intro γ x g hγ hx hg
+  rw [hprox]
+  exact proxOpt_box n l1 lb ub hB γ x g hγ hx hg
 
 /-! ### Loop level: one pass of the body -/
 
@@ -281,10 +409,10 @@ theorem accelerated_step_descent (P : Problem α) (dir : Direction D α) (pr : P
     prox oracle meeting its contract: the envelope of the new current iterate is below that of the
     old one by the full `(1−γL)/(2γ)·‖p‖²`, up to `(1+|ψ|)·qub_tol` — whatever step size the
     backtracking inside the line search chose for the new iterate. -/
-theorem safeguarded_step_descent (hval : Vec α → α) (dom : Vec α → Prop) (P : Problem α)
-    (hP : ∀ γ x g, 0 < γ → ProxOpt hval dom γ x g (P.prox γ x g))
-    (dir : Direction D α) (pr : Params α)
-    (stop : Nat → Bool) (s : St α D) (eps : α) (hg : GammaOK pr s.curr)
+theorem safeguarded_step_descent {n m : Nat} (hval : Vec α → α) (dom : Vec α → Prop) (P : Problem α)
+    (hP : ProxSpec n hval dom P) (hPs : ProblemSized n m P)
+    (dir : Direction D α) (hD : DirSized n dir) (pr : Params α)
+    (stop : Nat → Bool) (s : St α D) (eps : α) (hsz : Sized n m s.curr) (hg : GammaOK pr s.curr)
     (hsc : StepCons P s.curr) (hq : qubViolated pr s.curr = false) (hmin : 0 ≤ pr.minLsCoef)
     (hf : (iterLs P dir pr stop s).fuelOut = false)
     (hst : stop (iterLs P dir pr stop s).tick = false)
@@ -298,11 +426,12 @@ theorem safeguarded_step_descent (hval : Vec α → α) (dom : Vec α → Prop) 
   rw [ha.2.2.1]
   -- the candidate's own step
   obtain ⟨⟨hh, hxh, hp⟩, hpTp, hgTp⟩ := hd.step
+  have hnz := (iterBody_sized hPs dir hD pr stop s eps hsz hf).2 hst
   have hr := hP (iterLs P dir pr stop s).next.gamma (iterLs P dir pr stop s).next.x
-    (iterLs P dir pr stop s).next.gradPsi hd.inv.gok.1
+    (iterLs P dir pr stop s).next.gradPsi hd.inv.gok.1 hnz.x hnz.g
   -- the old iterate's step: h(x̂) and x̂ ∈ dom h
   obtain ⟨⟨ch, cxh, cp⟩, _, _⟩ := hsc
-  have hr0 := hP s.curr.gamma s.curr.x s.curr.gradPsi hg.1
+  have hr0 := hP s.curr.gamma s.curr.x s.curr.gradPsi hg.1 hsz.x hsz.g
   have hdom : dom s.curr.xhat := by rw [cxh]; exact hr0.feas
   have hhx : s.curr.hxhat = hval s.curr.xhat := by rw [ch, cxh]; exact hr0.h_eq
   have h1 := safe_step_envelope hval dom pr.qubTol s.curr.psix s.curr.psixhat s.curr.gradPsiTp s.curr.L
@@ -318,10 +447,10 @@ theorem safeguarded_step_descent (hval : Vec α → α) (dom : Vec α → Prop) 
     (scaled by the strictness factor)**: whatever `τ` the line search ends with, for
     `0 ≤ β ≤ 1`, `γL ≤ 1`,
     `φ(new) ≤ φ(old) − β(1−γL)/(2γ)·‖p‖² + max((1+|φ|)·ls_tol, (1+|ψ|)·qub_tol)`. -/
-theorem accelerated_never_worse_than_safeguard (hval : Vec α → α) (dom : Vec α → Prop)
-    (P : Problem α) (hP : ∀ γ x g, 0 < γ → ProxOpt hval dom γ x g (P.prox γ x g))
-    (dir : Direction D α) (pr : Params α)
-    (stop : Nat → Bool) (s : St α D) (eps : α) (hg : GammaOK pr s.curr)
+theorem accelerated_never_worse_than_safeguard {n m : Nat} (hval : Vec α → α) (dom : Vec α → Prop)
+    (P : Problem α) (hP : ProxSpec n hval dom P) (hPs : ProblemSized n m P)
+    (dir : Direction D α) (hD : DirSized n dir) (pr : Params α)
+    (stop : Nat → Bool) (s : St α D) (eps : α) (hsz : Sized n m s.curr) (hg : GammaOK pr s.curr)
     (hsc : StepCons P s.curr) (hq : qubViolated pr s.curr = false) (hmin : 0 ≤ pr.minLsCoef)
     (hf : (iterLs P dir pr stop s).fuelOut = false)
     (hst : stop (iterLs P dir pr stop s).tick = false) (hforce : pr.forceLinesearch = false)
@@ -336,7 +465,7 @@ theorem accelerated_never_worse_than_safeguard (hval : Vec α → α) (dom : Vec
         pr.lsStrictness * ((1 - s.curr.gamma * s.curr.L) / (2 * s.curr.gamma) * s.curr.pTp) := by ring
     rw [e] at h
     exact le_trans h (by linarith [le_max_left ((1 + |s.curr.fbe|) * pr.lsTol) ((1 + |s.curr.psix|) * pr.qubTol)])
-  · have h := safeguarded_step_descent hval dom P hP dir pr stop s eps hg hsc hq hmin hf hst hτ.symm
+  · have h := safeguarded_step_descent hval dom P hP hPs dir hD pr stop s eps hsz hg hsc hq hmin hf hst hτ.symm
     have hc : 0 ≤ (1 - s.curr.gamma * s.curr.L) / (2 * s.curr.gamma) * s.curr.pTp := by
       apply mul_nonneg
       · apply div_nonneg
@@ -398,10 +527,16 @@ theorem headStep_inv (G I : Prop) (P : Problem α) (pr : Params α) (stop : Nat 
   rw [gamma_of_core hc, fbe_of_core hc]
   exact h.head cb hcb
 
-theorem iterBody_inv (G I : Prop) (hval : Vec α → α) (dom : Vec α → Prop) (P : Problem α)
+/-- What the descent clauses (`G`) need: the reported iterate is not rewritten, the prox contract,
+    the size contracts of the oracles. -/
+def DescentHyp (n m : Nat) (hval : Vec α → α) (dom : Vec α → Prop) (P : Problem α)
+    (dir : Direction D α) (pr : Params α) : Prop :=
+  pr.recomputeLastProx = false ∧ ProxSpec n hval dom P ∧ ProblemSized n m P ∧ DirSized n dir
+
+theorem iterBody_inv (G I : Prop) (n m : Nat) (hval : Vec α → α) (dom : Vec α → Prop) (P : Problem α)
     (dir : Direction D α) (pr : Params α)
-    (hG : G → pr.recomputeLastProx = false ∧ ∀ γ x g, 0 < γ → ProxOpt hval dom γ x g (P.prox γ x g))
-    (stop : Nat → Bool) (s : St α D) (eps : α)
+    (hG : G → DescentHyp n m hval dom P dir pr)
+    (stop : Nat → Bool) (s : St α D) (eps : α) (hsz : G → Sized n m s.curr)
     (hmin : 0 ≤ pr.minLsCoef) (h : LoopInv G I P pr s)
     (hf : (iterLs P dir pr stop s).fuelOut = false) :
     LoopInv G I P pr (iterBody P dir pr stop s eps) := by
@@ -427,7 +562,7 @@ theorem iterBody_inv (G I : Prop) (hval : Vec α → α) (dom : Vec α → Prop)
     have hdesc : G → DescTo pr cb (iterBody P dir pr stop s eps).curr.fbe := by
       intro hg
       have hrec := (hG hg).1
-      have hP := (hG hg).2
+      have hP := (hG hg).2.1
       have hcc := hqub.2 hrec cb hcbs
       constructor
       · intro hτ hforce
@@ -438,7 +573,8 @@ theorem iterBody_inv (G I : Prop) (hval : Vec α → α) (dom : Vec α → Prop)
       · intro hτ hq
         rw [htau] at hτ
         rw [qubViolated_of_core pr hcc] at hq
-        have := safeguarded_step_descent hval dom P hP dir pr stop s eps h.gok h.step hq hmin hf hst' hτ
+        have := safeguarded_step_descent hval dom P hP (hG hg).2.2.1 dir (hG hg).2.2.2 pr stop s eps
+          (hsz hg) h.gok h.step hq hmin hf hst' hτ
         rw [hfbe, fbe_of_core hcc, gamma_of_core hcc, L_of_core hcc, pTp_of_core hcc, psix_of_core hcc]
         exact this
     have hcbok : CbOK I pr cb :=
@@ -558,11 +694,12 @@ theorem exit_callbacks_ok (G I : Prop) (P : Problem α) (pr : Params α) (s : St
       exact ⟨h.gok, fun _ => h.qok, rfl, fun hb => absurd hb hst⟩
     · exact h.cbs_ok cb hc
 
-theorem mainLoop_callbacks_ok (G I : Prop) (hval : Vec α → α) (dom : Vec α → Prop) (P : Problem α)
-    (dir : Direction D α) (pr : Params α)
-    (hG : G → pr.recomputeLastProx = false ∧ ∀ γ x g, 0 < γ → ProxOpt hval dom γ x g (P.prox γ x g))
+theorem mainLoop_callbacks_ok (G I : Prop) (n m : Nat) (hval : Vec α → α) (dom : Vec α → Prop)
+    (P : Problem α) (dir : Direction D α) (pr : Params α)
+    (hG : G → DescentHyp n m hval dom P dir pr)
     (hmin : 0 ≤ pr.minLsCoef) (stop : Nat → Bool) (oot : Bool)
     (x0 y Sig errz0 : Vec α) (fuel : Nat) (s : St α D) (h : LoopInv G I P pr s)
+    (hsz : G → Sized n m s.curr)
     (hf : s.fuelOut = false)
     (hr : (mainLoop P dir pr stop oot x0 y Sig errz0 fuel s).fuelOut = false) :
     List.IsChain (Consec G pr) (mainLoop P dir pr stop oot x0 y Sig errz0 fuel s).callbacks ∧
@@ -586,7 +723,10 @@ theorem mainLoop_callbacks_ok (G I : Prop) (hval : Vec α → α) (dom : Vec α 
         · exact hc
       have hls : (iterLs P dir pr stop (headStep P pr stop oot s).1).fuelOut = false := by
         rw [iterBody_fuelOut, hfh] at hf2; simpa using hf2
-      exact ih _ (iterBody_inv G I hval dom P dir pr hG stop _ _ hmin hh hls) hf2 hr
+      have hszh : G → Sized n m (headStep P pr stop oot s).1.curr := fun hg =>
+        headStep_sized (hG hg).2.2.1 pr stop oot s (hsz hg)
+      exact ih _ (iterBody_inv G I n m hval dom P dir pr hG stop _ _ hszh hmin hh hls)
+        (fun hg => (iterBody_sized (hG hg).2.2.1 dir (hG hg).2.2.2 pr stop _ _ (hszh hg) hls).1) hf2 hr
 
 /-- "The initial step-size loop was cut short by a stop request": the stop flag was visible at the
     tick at which the initialisation ended (the loop polls the flag first, so it was left through the
@@ -597,10 +737,11 @@ def InitInterrupted (P : Problem α) (d0 : D) (pr : Params α) (stop : Nat → B
   | .inl _ => False
   | .inr s => stop s.tick = true
 
-theorem run_callbacks_ok (G : Prop) (hval : Vec α → α) (dom : Vec α → Prop) (P : Problem α)
+theorem run_callbacks_ok (G : Prop) (n m : Nat) (hval : Vec α → α) (dom : Vec α → Prop) (P : Problem α)
     (dir : Direction D α) (d0 : D) (pr : Params α)
-    (hG : G → pr.recomputeLastProx = false ∧ ∀ γ x g, 0 < γ → ProxOpt hval dom γ x g (P.prox γ x g))
+    (hG : G → DescentHyp n m hval dom P dir pr)
     (hp : ParamsOK pr) (stop : Nat → Bool) (oot : Bool) (x0 y Sig errz0 gV : Vec α) (gS iS : α)
+    (hx0 : G → x0.length = n)
     (hfuel : (run P dir d0 pr stop oot x0 y Sig errz0 gV gS iS).fuelOut = false) :
     List.IsChain (Consec G pr) (run P dir d0 pr stop oot x0 y Sig errz0 gV gS iS).callbacks ∧
     ∀ cb ∈ (run P dir d0 pr stop oot x0 y Sig errz0 gV gS iS).callbacks,
@@ -617,30 +758,54 @@ theorem run_callbacks_ok (G : Prop) (hval : Vec α → α) (dom : Vec α → Pro
       · have := mainLoop_fuelOut_mono P dir pr stop oot x0 y Sig errz0 (pr.maxIter + 2) s hc
         rw [this] at hfuel; exact absurd hfuel (by decide)
       · exact hc
-    exact mainLoop_callbacks_ok G _ hval dom P dir pr hG hp.minLs stop oot x0 y Sig errz0 _ s
-      (hi hf0 G _ (fun h => by unfold InitInterrupted; rw [hs]; exact h)) hf0 hfuel
+    have hsz : G → Sized n m s.curr := fun hg => by
+      have := initState_sized (hG hg).2.2.1 d0 pr stop x0 gV gS iS (hx0 hg)
+      rw [hs] at this; exact this
+    exact mainLoop_callbacks_ok G _ n m hval dom P dir pr hG hp.minLs stop oot x0 y Sig errz0 _ s
+      (hi hf0 G _ (fun h => by unfold InitInterrupted; rw [hs]; exact h)) hsz hf0 hfuel
 
-/-! ### The property's loop-level clauses, over the callback stream of a solve -/
+/-! ### The property's loop-level clauses, over the callback stream of a solve
+
+Each clause comes in two forms: `…_of_fuel` assumes that the model's explicit fuel did not run out
+(`fuelOut = false`, any stop schedule); the main form replaces that by the explicit hypotheses of
+`Proofs/PanocFuel.run_fuel_suffices`: a monotone stop flag (`StopMono`, `Props/C19_Panoc`) and
+`FuelOK pr n K` (`L_max ≤ L_start·2ⁿ`, `ρᴷ < min_linesearch_coefficient`, `(n+1)(K+1) ≤ lsFuel`). -/
 
 /-- **The reported step size never increases** along the progress callbacks of a solve. -/
-theorem gamma_antitone (P : Problem α) (dir : Direction D α) (d0 : D) (pr : Params α)
+theorem gamma_antitone_of_fuel (P : Problem α) (dir : Direction D α) (d0 : D) (pr : Params α)
     (hp : ParamsOK pr) (stop : Nat → Bool) (oot : Bool) (x0 y Sig errz0 gV : Vec α) (gS iS : α)
     (hfuel : (run P dir d0 pr stop oot x0 y Sig errz0 gV gS iS).fuelOut = false) :
     List.IsChain (fun a b : Callback α => b.it.gamma ≤ a.it.gamma)
       (run P dir d0 pr stop oot x0 y Sig errz0 gV gS iS).callbacks :=
-  (run_callbacks_ok False (fun _ => 0) (fun _ => True) P dir d0 pr (fun h => h.elim) hp stop oot
-    x0 y Sig errz0 gV gS iS hfuel).1.imp (fun _ _ h => h.1)
+  (run_callbacks_ok False 0 0 (fun _ => 0) (fun _ => True) P dir d0 pr (fun h => h.elim) hp stop oot
+    x0 y Sig errz0 gV gS iS (fun h => h.elim) hfuel).1.imp (fun _ _ h => h.1)
+
+theorem gamma_antitone (P : Problem α) (dir : Direction D α) (d0 : D) (pr : Params α)
+    (hp : ParamsOK pr) (stop : Nat → Bool) (hm : StopMono stop) (nf K : Nat) (hF : FuelOK pr nf K)
+    (oot : Bool) (x0 y Sig errz0 gV : Vec α) (gS iS : α) :
+    List.IsChain (fun a b : Callback α => b.it.gamma ≤ a.it.gamma)
+      (run P dir d0 pr stop oot x0 y Sig errz0 gV gS iS).callbacks :=
+  gamma_antitone_of_fuel P dir d0 pr hp stop oot x0 y Sig errz0 gV gS iS
+    (run_fuel_suffices P dir d0 pr stop hm nf K hF oot x0 y Sig errz0 gV gS iS)
 
 /-- **`γ·L` of every reported iterate equals `Lγ_factor`** (and `γ, L > 0`): every update is
     `γ/2, L·2`. -/
-theorem gammaL_const (P : Problem α) (dir : Direction D α) (d0 : D) (pr : Params α)
+theorem gammaL_const_of_fuel (P : Problem α) (dir : Direction D α) (d0 : D) (pr : Params α)
     (hp : ParamsOK pr) (stop : Nat → Bool) (oot : Bool) (x0 y Sig errz0 gV : Vec α) (gS iS : α)
     (hfuel : (run P dir d0 pr stop oot x0 y Sig errz0 gV gS iS).fuelOut = false) :
     ∀ cb ∈ (run P dir d0 pr stop oot x0 y Sig errz0 gV gS iS).callbacks,
       cb.it.gamma * cb.it.L = pr.LgammaFactor ∧ 0 < cb.it.gamma ∧ 0 < cb.it.L := fun cb hcb =>
-  have h := ((run_callbacks_ok False (fun _ => 0) (fun _ => True) P dir d0 pr (fun h => h.elim) hp stop oot
-    x0 y Sig errz0 gV gS iS hfuel).2 cb hcb).gok
+  have h := ((run_callbacks_ok False 0 0 (fun _ => 0) (fun _ => True) P dir d0 pr (fun h => h.elim) hp stop oot
+    x0 y Sig errz0 gV gS iS (fun h => h.elim) hfuel).2 cb hcb).gok
   ⟨h.2.2, h.1, h.2.1⟩
+
+theorem gammaL_const (P : Problem α) (dir : Direction D α) (d0 : D) (pr : Params α)
+    (hp : ParamsOK pr) (stop : Nat → Bool) (hm : StopMono stop) (nf K : Nat) (hF : FuelOK pr nf K)
+    (oot : Bool) (x0 y Sig errz0 gV : Vec α) (gS iS : α) :
+    ∀ cb ∈ (run P dir d0 pr stop oot x0 y Sig errz0 gV gS iS).callbacks,
+      cb.it.gamma * cb.it.L = pr.LgammaFactor ∧ 0 < cb.it.gamma ∧ 0 < cb.it.L :=
+  gammaL_const_of_fuel P dir d0 pr hp stop oot x0 y Sig errz0 gV gS iS
+    (run_fuel_suffices P dir d0 pr stop hm nf K hF oot x0 y Sig errz0 gV gS iS)
 
 /-- **Every iterate handed to the callback satisfies the quadratic upper bound unless `L ≥ L_max`**
     (`recompute_last_prox_step_after_stepsize_change = false`; with that option the rewritten
@@ -649,7 +814,7 @@ theorem gammaL_const (P : Problem α) (dir : Direction D α) (d0 : D) (pr : Para
     (`InitInterrupted`), the *initial* iterate (reported with `k = 0`) was never brought to satisfy
     the bound; with a monotone flag that solve ends at its first loop head
     (`Props/C19_Panoc.init_interrupted_single_callback`). -/
-theorem reported_iterate_qub_run (P : Problem α) (dir : Direction D α) (d0 : D) (pr : Params α)
+theorem reported_iterate_qub_run_of_fuel (P : Problem α) (dir : Direction D α) (d0 : D) (pr : Params α)
     (hp : ParamsOK pr) (hrec : pr.recomputeLastProx = false) (stop : Nat → Bool) (oot : Bool)
     (x0 y Sig errz0 gV : Vec α) (gS iS : α)
     (hfuel : (run P dir d0 pr stop oot x0 y Sig errz0 gV gS iS).fuelOut = false) :
@@ -657,25 +822,36 @@ theorem reported_iterate_qub_run (P : Problem α) (dir : Direction D α) (d0 : D
       cb.it.psixhat ≤ cb.it.psix + cb.it.gradPsiTp + cb.it.L / 2 * cb.it.pTp +
           (1 + |cb.it.psix|) * pr.qubTol ∨ pr.Lmax ≤ cb.it.L ∨
       (InitInterrupted P d0 pr stop x0 gV gS iS ∧ cb.k = 0) := fun cb hcb => by
-  have h := ((run_callbacks_ok False (fun _ => 0) (fun _ => True) P dir d0 pr (fun h => h.elim) hp stop oot
-    x0 y Sig errz0 gV gS iS hfuel).2 cb hcb).qub hrec
+  have h := ((run_callbacks_ok False 0 0 (fun _ => 0) (fun _ => True) P dir d0 pr (fun h => h.elim) hp stop oot
+    x0 y Sig errz0 gV gS iS (fun h => h.elim) hfuel).2 cb hcb).qub hrec
   rcases h with (h | h) | h
   · left; exact qub_accept _ _ _ _ _ _ h
   · right; left; exact h
   · right; right; exact h
+
+theorem reported_iterate_qub_run (P : Problem α) (dir : Direction D α) (d0 : D) (pr : Params α)
+    (hp : ParamsOK pr) (hrec : pr.recomputeLastProx = false) (stop : Nat → Bool)
+    (hm : StopMono stop) (nf K : Nat) (hF : FuelOK pr nf K) (oot : Bool)
+    (x0 y Sig errz0 gV : Vec α) (gS iS : α) :
+    ∀ cb ∈ (run P dir d0 pr stop oot x0 y Sig errz0 gV gS iS).callbacks,
+      cb.it.psixhat ≤ cb.it.psix + cb.it.gradPsiTp + cb.it.L / 2 * cb.it.pTp +
+          (1 + |cb.it.psix|) * pr.qubTol ∨ pr.Lmax ≤ cb.it.L ∨
+      (InitInterrupted P d0 pr stop x0 gV gS iS ∧ cb.k = 0) :=
+  reported_iterate_qub_run_of_fuel P dir d0 pr hp hrec stop oot x0 y Sig errz0 gV gS iS
+    (run_fuel_suffices P dir d0 pr stop hm nf K hF oot x0 y Sig errz0 gV gS iS)
 
 /-- If no stop request was visible when the initialisation ended, every reported iterate satisfies the
     quadratic upper bound unless `L ≥ L_max` — the statement as it was before the initial loop
     polled the flag. -/
 theorem reported_iterate_qub_run_uninterrupted (P : Problem α) (dir : Direction D α) (d0 : D)
     (pr : Params α) (hp : ParamsOK pr) (hrec : pr.recomputeLastProx = false) (stop : Nat → Bool)
+    (hm : StopMono stop) (nf K : Nat) (hF : FuelOK pr nf K)
     (oot : Bool) (x0 y Sig errz0 gV : Vec α) (gS iS : α)
-    (hfuel : (run P dir d0 pr stop oot x0 y Sig errz0 gV gS iS).fuelOut = false)
     (hni : ¬ InitInterrupted P d0 pr stop x0 gV gS iS) :
     ∀ cb ∈ (run P dir d0 pr stop oot x0 y Sig errz0 gV gS iS).callbacks,
       cb.it.psixhat ≤ cb.it.psix + cb.it.gradPsiTp + cb.it.L / 2 * cb.it.pTp +
           (1 + |cb.it.psix|) * pr.qubTol ∨ pr.Lmax ≤ cb.it.L := fun cb hcb => by
-  rcases reported_iterate_qub_run P dir d0 pr hp hrec stop oot x0 y Sig errz0 gV gS iS hfuel cb hcb
+  rcases reported_iterate_qub_run P dir d0 pr hp hrec stop hm nf K hF oot x0 y Sig errz0 gV gS iS cb hcb
     with h | h | h
   · exact Or.inl h
   · exact Or.inr h
@@ -687,21 +863,36 @@ theorem reported_iterate_qub_run_uninterrupted (P : Problem α) (dir : Direction
       `φₖ₊₁ ≤ φₖ − β·cₖ‖pₖ‖² + (1+|φₖ|)·ls_tol`;
     * `τₖ = 0` (safeguarded step) and the reported iterate passed the quadratic upper bound test:
       `φₖ₊₁ ≤ φₖ − cₖ‖pₖ‖² + (1+|ψₖ|)·qub_tol`;
-    for `recompute_last_prox_step_after_stepsize_change = false` and a prox oracle meeting
-    `ProxOpt`.  (Every `Busy` callback has `τ ≥ 0`, `CbOK.tau`.) -/
-theorem accepted_step_descent_loop (hval : Vec α → α) (dom : Vec α → Prop) (P : Problem α)
-    (hP : ∀ γ x g, 0 < γ → ProxOpt hval dom γ x g (P.prox γ x g))
-    (dir : Direction D α) (d0 : D) (pr : Params α)
+    for `recompute_last_prox_step_after_stepsize_change = false`, a prox oracle meeting the sized
+    contract `ProxSpec n`, size contracts of the other oracles and of the direction provider, and a
+    start of size `n`.  (Every `Busy` callback has `τ ≥ 0`, `CbOK.tau`.) -/
+theorem accepted_step_descent_loop_of_fuel {n m : Nat} (hval : Vec α → α) (dom : Vec α → Prop)
+    (P : Problem α) (hP : ProxSpec n hval dom P) (hPs : ProblemSized n m P)
+    (dir : Direction D α) (hD : DirSized n dir) (d0 : D) (pr : Params α)
     (hp : ParamsOK pr) (hrec : pr.recomputeLastProx = false) (stop : Nat → Bool) (oot : Bool)
-    (x0 y Sig errz0 gV : Vec α) (gS iS : α)
+    (x0 y Sig errz0 gV : Vec α) (gS iS : α) (hx0 : x0.length = n)
     (hfuel : (run P dir d0 pr stop oot x0 y Sig errz0 gV gS iS).fuelOut = false) :
     List.IsChain (fun a b : Callback α => DescTo pr a b.fbe)
       (run P dir d0 pr stop oot x0 y Sig errz0 gV gS iS).callbacks ∧
     ∀ cb ∈ (run P dir d0 pr stop oot x0 y Sig errz0 gV gS iS).callbacks,
       cb.fbe = cb.it.fbe ∧ (cb.status = .Busy → 0 ≤ cb.tau) := by
-  have h := run_callbacks_ok True hval dom P dir d0 pr (fun _ => ⟨hrec, hP⟩) hp stop oot
-    x0 y Sig errz0 gV gS iS hfuel
+  have h := run_callbacks_ok True n m hval dom P dir d0 pr (fun _ => ⟨hrec, hP, hPs, hD⟩) hp stop oot
+    x0 y Sig errz0 gV gS iS (fun _ => hx0) hfuel
   exact ⟨h.1.imp (fun _ _ hc => hc.2 trivial), fun cb hcb => ⟨(h.2 cb hcb).fbe, (h.2 cb hcb).tau⟩⟩
+
+theorem accepted_step_descent_loop {n m : Nat} (hval : Vec α → α) (dom : Vec α → Prop)
+    (P : Problem α) (hP : ProxSpec n hval dom P) (hPs : ProblemSized n m P)
+    (dir : Direction D α) (hD : DirSized n dir) (d0 : D) (pr : Params α)
+    (hp : ParamsOK pr) (hrec : pr.recomputeLastProx = false) (stop : Nat → Bool)
+    (hm : StopMono stop) (nf K : Nat) (hF : FuelOK pr nf K) (oot : Bool)
+    (x0 y Sig errz0 gV : Vec α) (gS iS : α) (hx0 : x0.length = n) :
+    List.IsChain (fun a b : Callback α => DescTo pr a b.fbe)
+      (run P dir d0 pr stop oot x0 y Sig errz0 gV gS iS).callbacks ∧
+    ∀ cb ∈ (run P dir d0 pr stop oot x0 y Sig errz0 gV gS iS).callbacks,
+      cb.fbe = cb.it.fbe ∧ (cb.status = .Busy → 0 ≤ cb.tau) :=
+  accepted_step_descent_loop_of_fuel hval dom P hP hPs dir hD d0 pr hp hrec stop oot
+    x0 y Sig errz0 gV gS iS hx0
+    (run_fuel_suffices P dir d0 pr stop hm nf K hF oot x0 y Sig errz0 gV gS iS)
 
 /-! ### Non-vacuity -/
 
@@ -733,27 +924,103 @@ example : ProxOpt (fun _ => (0 : ℚ)) (fun u => ∃ a, u = [a] ∧ 0 ≤ a ∧ 
     rw [e2]
     nlinarith [h4]
 
-/-- the `∀ γ x g` form of the contract is satisfiable (dimension-0 problem: `x̂ = x = []`) -/
-example : ∀ (γ : ℚ) (x g : Vec ℚ), 0 < γ →
-    ProxOpt (fun _ => (0 : ℚ)) (fun u => u = []) γ x g ((0 : ℚ), ([] : Vec ℚ), ([] : Vec ℚ)) := by
-  intro γ x g _
-  refine ⟨by simp [vsub, vzip], rfl, rfl, ?_⟩
-  rintro u rfl _
-  exact le_refl _
+theorem stopAt_mono (t0 : Option Nat) : StopMono (stopAt t0) := by
+  intro s t h hs
+  cases t0 with
+  | none => simp [stopAt] at hs
+  | some t0 => simp only [stopAt, decide_eq_true_eq] at *; omega
 
-example : ParamsOK prq := ⟨by norm_num [prq], by norm_num [prq], by norm_num [prq], by norm_num [prq]⟩
+/-- the data of the example box `[-10, 10]` (no ℓ1 term), dimension 1 -/
+theorem boxData_ex : BoxData 1 ([] : Vec ℚ) [-10] [10] := by
+  refine ⟨?_, ?_, Or.inl (by simp)⟩
+  · intro i hi; have : i = 0 := by omega
+    subst this; norm_num [vget]
+  · intro i _; simp [Alpaqa.Props.C15.lamAt]
 
-/-- the concrete run: three callbacks, step size constant `19/40`, `γ·L = 19/20`, both steps
-    safeguarded (`τ = 0`) with strictly decreasing envelope `21/80 > 9261/128000 > …` -/
+/-- **the sized prox contract holds for the shipped box step** (dimension 1), with no hypothesis left -/
+example : ProxSpec 1 (hvalL1 ([] : Vec ℚ) 1) (domBox 1 [-10] [10]) Pbox :=
+  proxSpec_box 1 [] [-10] [10] boxData_ex Pbox (fun _ _ _ => rfl)
+
+/-- … and for a box+ℓ1 step of dimension 2 (`λ = ½`, box `[0,3] × [-1,1]`), for every problem using it -/
+example (P : Problem ℚ) (h : ∀ γ x g, P.prox γ x g = Alpaqa.C15.proxGradStep [1/2] γ x g [0, -1] [3, 1]) :
+    ProxSpec 2 (hvalL1 [1/2] 2) (domBox 2 [0, -1] [3, 1]) P := by
+  refine proxSpec_box 2 [1/2] [0, -1] [3, 1] ⟨?_, ?_, Or.inl (by simp)⟩ P h
+  · intro i hi
+    have : i = 0 ∨ i = 1 := by omega
+    rcases this with rfl | rfl <;> norm_num [vget]
+  · intro i _; norm_num [Alpaqa.Props.C15.lamAt, vget]
+
+theorem paramsOK_prq : ParamsOK prq :=
+  ⟨by norm_num [prq], by norm_num [prq], by norm_num [prq], by norm_num [prq]⟩
+
+/-- the fuel hypotheses hold for the example parameters: `L_max = 4 ≤ L₀·2¹`, `(½)⁹ < 1/256`,
+    `(1+1)(9+1) = 20 ≤ lsFuel = 70` -/
+theorem fuelOK_prq : FuelOK prq 1 9 := by
+  refine ⟨?_, ?_, ?_, ?_, ?_, by norm_num, ?_, ?_⟩ <;> norm_num [prq, Lstart]
+
+theorem problemSized_Pbox : ProblemSized 1 0 Pbox := by
+  refine ⟨fun x h => h, fun _ _ => rfl, fun _ _ => rfl, fun x h => h, fun x _ h _ => h, ?_, ?_⟩
+  · intro γ x g hx _
+    show (Alpaqa.C15.proxGradStep [] γ x g [-10] [10]).2.1.length = 1
+    rw [Alpaqa.Props.C15.proxGradStep_xhat_length, hx]
+  · intro γ x g hx _
+    show (Alpaqa.C15.proxGradStep [] γ x g [-10] [10]).2.2.length = 1
+    rw [proxGradStep_p_length, hx]
+
+theorem dirSized_newton : DirSized 1 dirNewton := by
+  intro d γ x xh p g q _ _ _ hg _
+  show (vneg g).length = 1
+  simp [vneg, hg]
+
+theorem dirSized_noop (n : Nat) : DirSized n dirNoop := by
+  intro d γ x xh p g q _ _ _ _ h
+  exact absurd h (by simp [dirNoop])
+
+/-- the concrete run with the no-op provider: three callbacks, step size constant `19/40`,
+    `γ·L = 19/20`, both steps safeguarded (`τ = 0`) with strictly decreasing envelope
+    `21/80 > 9261/128000 > …` -/
 example : (rq none).fuelOut = false ∧
     (rq none).callbacks.map (fun c => (c.k, c.it.gamma, c.it.L, c.tau)) =
       [(0, 19/40, 2, 0), (1, 19/40, 2, 0), (2, 19/40, 2, -1)] ∧
     (rq none).callbacks.map (·.fbe) = [21/80, 9261/128000, 4084101/204800000] := by
   decide +kernel
 
+/-- `gamma_antitone` with *all* its hypotheses discharged (no fuel assumption) -/
 example : List.IsChain (fun a b : Callback ℚ => b.it.gamma ≤ a.it.gamma) (rq none).callbacks :=
-  gamma_antitone Pq dirNoop () prq ⟨by norm_num [prq], by norm_num [prq], by norm_num [prq],
-    by norm_num [prq]⟩ (stopAt none) false [1] [] [] [] [] 0 0 (by decide +kernel)
+  gamma_antitone Pq dirNoop () prq paramsOK_prq (stopAt none) (stopAt_mono none) 1 9 fuelOK_prq
+    false [1] [] [] [] [] 0 0
+
+/-- **an accepted accelerated step at loop level**: the box problem with the Newton provider —
+    iteration 0 accepts `τ = 1` (envelope `21/80 → 0`), the next head converges -/
+example : (rn none).stats.status = .Converged ∧ (rn none).stats.iterations = 1 ∧
+    (rn none).callbacks.map (fun c => (c.k, c.tau, c.fbe, c.it.gamma, c.it.L, c.it.pTp)) =
+      [(0, 1, 21/80, 19/40, 2, 361/1600), (1, -1, 0, 19/40, 2, 0)] := by decide +kernel
+
+/-- `accepted_step_descent_loop` on that run, every hypothesis discharged: the prox contract by
+    `proxSpec_box` (from `Props/C15`), the size contracts, the parameter and fuel conditions -/
+example : List.IsChain (fun a b : Callback ℚ => DescTo prq a b.fbe) (rn none).callbacks :=
+  (accepted_step_descent_loop (n := 1) (m := 0) (hvalL1 [] 1) (domBox 1 [-10] [10]) Pbox
+    (proxSpec_box 1 [] [-10] [10] boxData_ex Pbox (fun _ _ _ => rfl)) problemSized_Pbox
+    dirNewton dirSized_newton () prq paramsOK_prq rfl (stopAt none) (stopAt_mono none) 1 9 fuelOK_prq
+    false [1] [] [] [] [] 0 0 rfl).1
+
+/-- … whose first link is the accelerated clause (`τ₀ = 1 > 0`):
+    `φ₁ = 0 ≤ φ₀ − β(1−γL)/(2γ)·‖p₀‖² = 21/80 − 361/32000` -/
+example : ∀ a b, (rn none).callbacks = [a, b] →
+    b.fbe ≤ a.fbe - prq.lsStrictness * (1 - a.it.gamma * a.it.L) / (2 * a.it.gamma) * a.it.pTp +
+      (1 + |a.fbe|) * prq.lsTol := by
+  intro a b hab
+  have h := (accepted_step_descent_loop (n := 1) (m := 0) (hvalL1 [] 1) (domBox 1 [-10] [10]) Pbox
+    (proxSpec_box 1 [] [-10] [10] boxData_ex Pbox (fun _ _ _ => rfl)) problemSized_Pbox
+    dirNewton dirSized_newton () prq paramsOK_prq rfl (stopAt none) (stopAt_mono none) 1 9 fuelOK_prq
+    false [1] [] [] [] [] 0 0 rfl).1
+  have hr : run Pbox dirNewton () prq (stopAt none) false [1] [] [] [] [] 0 0 = rn none := rfl
+  rw [hr, hab] at h
+  have h1 := (List.isChain_cons_cons.mp h).1
+  have hτ : a.tau = 1 := by
+    have : ((rn none).callbacks.map (·.tau)) = [1, -1] := by decide +kernel
+    rw [hab] at this; simpa using (List.cons.inj this).1
+  exact h1.1 (by rw [hτ]; norm_num) rfl
 
 end examples
 
